@@ -198,7 +198,7 @@ def histories(draw, tier):
     ops = []
     m_fixed = draw(st.integers(1, 3))
     for _ in range(draw(st.integers(1, 8))):
-        kind = draw(st.sampled_from(["fresh", "start", "continue", "continue", "reparam"]))
+        kind = draw(st.sampled_from(["fresh", "start", "continue", "continue", "reparam", "reinit_reparam", "other_object"]))
         op = {"op": kind}
         if kind == "fresh":
             op.update(k=draw(st.integers(0, 3)), m=m_fixed if draw(st.booleans()) else draw(st.integers(1, 3)))
@@ -231,12 +231,27 @@ def check_history(case):
     state.rbm_am.gibbs_steps = gs_spy
     labels = set()
     steps_total = 0
+    other_state = [None]
     try:
         torch.bernoulli = mon
         for op in case["ops"]:
             if op["op"] == "reparam":
                 gen.set_net(state.rbm_am, case["alt"])
                 am = R.net_from_case(case["alt"])
+                continue
+            if op["op"] == "reinit_reparam":
+                # lifecycle: the sampled state is reinitialised (new parameter objects) and given the alternative parameters
+                state.reinitialize_parameters()
+                gen.set_net(state.rbm_am, case["alt"])
+                am = R.net_from_case(case["alt"])
+                labels.add("reinitialised")
+                continue
+            if op["op"] == "other_object":
+                # shared class: ANOTHER state of the same class and sizes (other parameters) samples in between
+                if other_state[0] is None:
+                    other_state[0] = gen.build_state(dict(sc, am=case["alt"]))
+                other_state[0].sample(2, num_samples=3)
+                labels.add("other_object_sampled")
                 continue
             mon.calls = []
             entered.clear()
@@ -329,7 +344,7 @@ def check_history(case):
         torch.bernoulli = real
         state.rbm_am.gibbs_steps = orig_gs
     nt = nt_arch(sc) and steps_total >= 1 and mon.low and mon.high
-    return {"nontrivial": nt, "labels": sorted(labels) + [f"type={sc['type']}"] + (["multi-call"] if sum(1 for o in case["ops"] if o["op"] != "reparam") > 1 else [])}
+    return {"nontrivial": nt, "labels": sorted(labels) + [f"type={sc['type']}"] + (["multi-call"] if sum(1 for o in case["ops"] if o["op"] not in ("reparam", "reinit_reparam", "other_object")) > 1 else [])}
 
 
 # --------------------------------------------------------------------------- empirical law
